@@ -27,6 +27,7 @@ type zzTransport struct {
 	closes    int
 	unflushed int // bytes logged since the last Flush
 	inWrite   bool
+	inFlush   bool
 	closed    bool
 	yield     bool // scheduling point inside Write/Writev (so "write in progress" is an observable state)
 	// fault injection
@@ -113,6 +114,11 @@ func (t *zzTransport) Writev(buffs transport.Buffers) (int64, error) {
 }
 
 func (t *zzTransport) Flush() error {
+	if t.yield {
+		t.inFlush = true
+		vrt.Yield() // a flush is a system call, not an atomic step: "flush in progress" is an observable state
+		t.inFlush = false
+	}
 	t.flushes++
 	if t.failFlushAt == t.flushes {
 		return t.writeErr
@@ -142,7 +148,7 @@ func (t *zzTransport) Read(p []byte) (int, error) {
 
 func (t *zzTransport) Close() error {
 	t.closes++
-	if t.inWrite {
+	if t.inWrite || t.inFlush {
 		t.closedWhileWriting = true
 	}
 	if t.onClose != nil {
